@@ -328,7 +328,7 @@ def rule_E1(ctx, prop='C14', scope=None, floor=600):
                    if (not ok or res.obligations % 40 == 0) else None)
             if not ok:
                 sites = S.sites.get((f.usr, it), [])
-                key = (it[0], it[1], it[2])
+                key = tuple(it[:3])
                 # one finding per written location (the entries that reach it are listed)
                 if key in reported:
                     continue
@@ -337,7 +337,7 @@ def rule_E1(ctx, prop='C14', scope=None, floor=600):
                 direct = [s for s in sites if not s[1].startswith('via ')]
                 kind = {'mut': 'mutable member', 'ptr': 'pointee of member', 'static': 'static variable'}[it[0]]
                 name = '%s::%s' % (it[1], it[2]) if it[0] != 'static' else it[1]
-                res.fail(it[1], it[2] if it[0] != 'static' else it[1],
+                res.fail(it[1] if it[0] != 'static' else it[1].rsplit('::', 1)[0], it[2] if it[0] != 'static' else it[1],
                          sites[0][0] if sites else f.loc(),
                          '%s %s may be written from %d const/static entry points (e.g. %s; %s at %s)'
                          % (kind, name, len(reach), ', '.join(reach[:3]),
@@ -376,7 +376,7 @@ def rule_E1_decl(ctx):
     return res
 
 
-def rule_E3(ctx):
+def rule_E3(ctx, floor=300):
     res = RuleResult('E3', 'no cast in library code drops const')
     n = 0
     for f in ctx.lib_fns():
@@ -394,7 +394,7 @@ def rule_E3(ctx):
                              'cast drops const (%s): writes through it escape the const-correctness '
                              'argument of E1' % nd['k'])
     res.analysed['explicit_casts'] = n
-    res.floor('explicit casts examined', n, 300)
+    res.floor('explicit casts examined', n, floor)
     return res
 
 
@@ -441,14 +441,14 @@ def _tainted_locals(fn):
     return tainted
 
 
-def rule_E4(ctx):
+def rule_E4(ctx, floor=150, prefix=None):
     res = RuleResult('E4', 'every variable with static storage is const (audited exceptions), and no '
                            'function-local static is initialised from a parameter or this')
     prog = ctx.prog
     n = 0
     nlocal = 0
     for v in prog.vars.values():
-        if not v['file'].startswith((os.path.join(ctx.repo, 'src'), os.path.join(ctx.repo, 'include'))):
+        if not v['file'].startswith((prefix,) if prefix else (os.path.join(ctx.repo, 'src'), os.path.join(ctx.repo, 'include'))):
             continue
         n += 1
         name = v['q'] if v['kind'] != 'static_local' else '%s::%s' % (v.get('fnq', '?'), v['name'])
@@ -481,8 +481,8 @@ def rule_E4(ctx):
                          'frozen for every later call' % (name, bad))
     res.analysed['static_storage_variables'] = n
     res.analysed['function_local_statics'] = nlocal
-    res.floor('static-storage variables', n, 150)
-    res.floor('function-local statics', nlocal, 40)
+    res.floor('static-storage variables', n, floor)
+    res.floor('function-local statics', nlocal, 40 if floor else 0)
     return res
 
 
